@@ -119,6 +119,16 @@ class SafeText:
             ok, _ = pa.holds_at(at, lambda w: Lit(f"valid({w.token(e.id)})"))
             if ok and pa.reached(at):
                 return VALID
+            if p is not None and e.id != p and pa.reached(at):
+                # `if x == param or <x has the tree of param>: return x`: the parameter itself, or a text that parsed (unless param did not)
+                try:
+                    same = ast.parse(f"{e.id} == {p}", mode="eval").body
+                    ok2, _ = pa.holds_at(at, lambda w: Or(Lit(f"valid({w.token(e.id)})"), pa.formula(same, w, True)))
+                except Exception:
+                    ok2 = False
+                worlds_ = pa.worlds_at(at)
+                if ok2 and worlds_ and all(w.token(p) == f"{p}#0" for w in worlds_):
+                    return SAFE
             if e.id == p:
                 # flow-sensitive: the parameter read while it still holds the value it was called with (`original = source` at the top)
                 worlds = pa.worlds_at(at)
@@ -327,8 +337,29 @@ def check(prog: Program, tier: str) -> Result:
         elif r38:
             res.ok("R3.3", fn.loc(), fn.fq, f"pipeline stage {fn.fq}", "direct editor made of whitespace-only regex substitutions that end at a line boundary (R3.8)")
         else:
-            res.undecided("R3.3", fn.loc(), fn.fq, f"pipeline stage {fn.fq}",
-                          f"{kind} editor without rollback: validity of its output is a runtime property (unguarded surface)")
+            # armed form (sixth wave): a stage that hands on what a position-based editor of the repository made (a helper without the
+            # summary: remove_nodes, _fix_variable_names, _fix_undefined_variables ..) without validating it.  Both instances the tree had
+            # were reproduced (a decorator written `@(  # comment`, an import put between decorator and def) and repaired.
+            editor = None
+            for r_ in [n for n in walk_own(fn.node) if isinstance(n, ast.Return) and n.value is not None]:
+                exprs = [r_.value] + [v for x in ast.walk(r_.value) if isinstance(x, ast.Name) for _s, v in assignments(fn, x.id) if v is not None]
+                for e_ in exprs:
+                    for c_ in ast.walk(e_):
+                        if isinstance(c_, ast.Call):
+                            rr = prog.resolve_call(c_.func, fn.mod, fn)
+                            if rr and rr[0] == "fn" and not rr[1].is_fix and rr[1].posparams and rr[1].posparams[0] in ("source", "src", "content") \
+                                    and st.summary.get(rr[1].key, UNKNOWN) not in (PARAM, VALID, SAFE):
+                                st.solve([rr[1]])
+                                if st.summary.get(rr[1].key, UNKNOWN) not in (PARAM, VALID, SAFE):
+                                    editor = rr[1]
+            if editor is not None:
+                res.bad("R3.3", fn.loc(), fn.fq, f"pipeline stage {fn.fq}",
+                        f"{kind} stage that returns what {editor.fq}() made of the text (an editor that works by positions and does not validate) without consulting the "
+                        "validity oracle: when the editor's idea of a position is off (a decorator written over two lines, a comment inside the parenthesis) the broken text "
+                        "is handed to the next stage, which raises SyntaxError")
+            else:
+                res.undecided("R3.3", fn.loc(), fn.fq, f"pipeline stage {fn.fq}",
+                              f"{kind} editor without rollback: validity of its output is a runtime property (unguarded surface)")
     if st.wrapper is None or st.summary.get(st.wrapper.key) not in (SAFE, PARAM, VALID):
         res.bad("R3.1", "pyrefact/processing.py:0", "processing.fix", "fix.wrapper result",
                 "the processing.fix wrapper does not return its input or the result of _apply_rewrites "
@@ -499,7 +530,42 @@ def _r3_9(prog: Program, res: Result) -> None:
     (decided on the regex AST)."""
     import re._parser as sre
     n = 0
+
+    def anchored(ptxt: str) -> bool:
+        try:
+            items = list(sre.parse(ptxt))
+        except Exception:
+            return False
+        return bool(items) and str(items[0][0]) == "AT" and str(items[0][1]) in ("AT_BEGINNING", "AT_BEGINNING_STRING") and "(?m" not in ptxt
     for fn in prog.funcs.values():
+        # form B: <compiled pattern>.match / .search (text, pos) whose match END becomes the position
+        for c in walk_own(fn.node):
+            if not (isinstance(c, ast.Call) and isinstance(c.func, ast.Attribute) and c.func.attr in ("match", "search") and len(c.args) == 2
+                    and isinstance(c.args[0], ast.Name) and c.args[0].id in fn.all_params and isinstance(c.args[1], ast.Name)):
+                continue
+            ptxt = _regex_of(prog, fn, c.func.value)
+            st = c
+            while st is not None and not isinstance(st, ast.stmt):
+                st = parent(st)
+            if ptxt is None or not (isinstance(st, ast.Assign) and isinstance(st.targets[0], ast.Name)):
+                continue
+            var, pos_name = st.targets[0].id, c.args[1].id
+            moves = [a for a in walk_own(fn.node) if isinstance(a, (ast.Assign, ast.AugAssign)) and isinstance(getattr(a, "target", None) or a.targets[0], ast.Name)
+                     and (getattr(a, "target", None) or a.targets[0]).id == pos_name and var in {x.id for x in ast.walk(a.value) if isinstance(x, ast.Name)}]
+            if not moves:
+                continue
+            n += 1
+            if c.func.attr == "search":
+                res.bad("R3.9", fn.loc(c), fn.fq, short(c, 80),
+                        f"the pattern {ptxt!r} is SEARCHED from the position on, not matched at it: the deletion is widened up to the next place the pattern occurs anywhere "
+                        "later in the text - a `;` in a comment, in a string, many lines below - and everything in between is deleted")
+                continue
+            try:
+                bad = _re_can_match_newline(list(sre.parse(ptxt)))
+            except Exception as error:
+                res.undecided("R3.9", fn.loc(c), fn.fq, short(c, 80), f"pattern does not parse: {error}")
+                continue
+            res.decide(not bad, "R3.9", fn.loc(c), fn.fq, short(c, 80), "matched at the position; cannot cross a line break" if not bad else f"the pattern {ptxt!r} can match a line break")
         for c in walk_own(fn.node):
             if not (isinstance(c, ast.Call) and (prog.dotted(c.func) or "") in ("re.findall", "re.match", "re.search", "re.finditer") and len(c.args) >= 2):
                 continue
@@ -528,6 +594,11 @@ def _r3_9(prog: Program, res: Result) -> None:
                 bad = _re_can_match_newline(list(sre.parse(ptxt)))
             except Exception as error:
                 res.undecided("R3.9", fn.loc(c), fn.fq, short(c, 80), f"pattern does not parse: {error}")
+                continue
+            if not bad and (prog.dotted(c.func) or "") != "re.match" and text.slice.lower is not None and not anchored(ptxt):
+                res.bad("R3.9", fn.loc(c), fn.fq, short(c, 80),
+                        f"the pattern {ptxt!r} is not anchored at the start of the tail it is applied to: the first occurrence ANYWHERE behind the position widens the "
+                        "deletion, although text lies in between")
                 continue
             res.decide(not bad, "R3.9", fn.loc(c), fn.fq, short(c, 80),
                        "the widening cannot cross a line break" if not bad else
